@@ -16,6 +16,7 @@ type StreamCfg struct {
 	Unknown    bool // interleave unknown records (all wire types, groups)
 	Canonical  bool // no duplication of singular fields / no padding: "plain" values
 	MapBurst   int  // >0: prefer map-bearing fields and emit up to MapBurst entries per pick
+	ListBurst  int  // >0: a picked repeated field is emitted up to ListBurst times in a row (many chunks, long lists)
 	// Avoid holds known-finding classes the generator must steer away from
 	// (see known_findings.json). Each avoided draw is counted in Excluded.
 	Avoid    map[string]bool
@@ -84,13 +85,40 @@ func genF32Bits(t *rapid.T) uint32 {
 var genStr = rapid.OneOf(
 	rapid.SampledFrom([]string{"", "a", "\x00", "héllo", "日本語", "\u0000x\u007f", "😀"}),
 	rapid.StringN(0, 12, 40),
+	rapid.StringN(0, 12, 40),
 	rapid.StringOfN(rapid.RuneFrom([]rune("abé世")), 120, 140, -1),
+	rapid.Custom(func(t *rapid.T) string {
+		n := boundaryLen.Draw(t, "slen")
+		b := make([]byte, n)
+		c := rapid.SampledFrom([]byte("axyz0")).Draw(t, "fillc")
+		for i := range b {
+			b[i] = c
+		}
+		return string(b)
+	}),
 )
+
+// lengths at the 1->2 and 2->3 byte boundaries of the length varint
+var boundaryLen = rapid.Custom(func(t *rapid.T) int {
+	if rapid.IntRange(0, 60).Draw(t, "hugelen") == 0 {
+		return rapid.SampledFrom([]int{16383, 16384, 16385}).Draw(t, "len3")
+	}
+	return rapid.SampledFrom([]int{126, 127, 128, 129}).Draw(t, "len2")
+})
 
 var genBytes = rapid.OneOf(
 	rapid.SampledFrom([][]byte{{}, {0}, {0xff}, {0x80, 0x80, 0x80}}),
 	rapid.SliceOfN(rapid.Byte(), 0, 12),
-	rapid.SliceOfN(rapid.Byte(), 126, 132),
+	rapid.SliceOfN(rapid.Byte(), 0, 12),
+	rapid.Custom(func(t *rapid.T) []byte {
+		n := boundaryLen.Draw(t, "blen")
+		b := make([]byte, n)
+		seed := rapid.Byte().Draw(t, "fill")
+		for i := range b {
+			b[i] = seed + byte(i*7)
+		}
+		return b
+	}),
 )
 
 // appendVarintPadded appends v using exactly n bytes when n is a valid
@@ -244,6 +272,15 @@ func (c *StreamCfg) GenStream(t *rapid.T, md protoreflect.MessageDescriptor, dep
 			}
 		}
 		num := fd.Number()
+		if c.ListBurst > 0 && fd.IsList() && rapid.IntRange(0, 1).Draw(t, "listburst") == 0 {
+			// the same repeated field again and again: extra iterations of this loop pick it
+			k := rapid.IntRange(2, c.ListBurst).Draw(t, "burstlen")
+			c.label("repeated-field-burst")
+			for e := 0; e < k; e++ {
+				b = c.oneListRecord(t, b, fd, depth)
+			}
+			continue
+		}
 		switch {
 		case fd.IsMap():
 			if depth >= c.MaxDepth && fd.MapValue().Message() != nil {
@@ -265,8 +302,8 @@ func (c *StreamCfg) GenStream(t *rapid.T, md protoreflect.MessageDescriptor, dep
 			if rapid.Bool().Draw(t, "packed") {
 				cnt := rapid.IntRange(0, 5).Draw(t, "runlen")
 				if !c.Canonical && rapid.IntRange(0, 40).Draw(t, "bigrun") == 0 {
-					cnt = rapid.IntRange(128, 140).Draw(t, "bigrunlen")
-					c.label("packed-run>=128")
+					cnt = rapid.SampledFrom([]int{15, 16, 17, 31, 32, 33, 63, 64, 127, 128, 129, 140}).Draw(t, "bigrunlen")
+					c.label("packed-run-boundary-length(15..140)")
 				}
 				if cnt == 0 {
 					c.label("packed-run-empty")
@@ -600,4 +637,33 @@ func CanonValue(fd protoreflect.FieldDescriptor, v protoreflect.Value) string {
 	var b strings.Builder
 	canonVal(&b, fd, v, Same, 0)
 	return b.String()
+}
+
+// oneListRecord appends one record (packed run, unpacked element or nested
+// message) for the repeated field fd.
+func (c *StreamCfg) oneListRecord(t *rapid.T, b []byte, fd protoreflect.FieldDescriptor, depth int) []byte {
+	num := fd.Number()
+	switch {
+	case fd.Message() != nil:
+		if depth >= c.MaxDepth {
+			return b
+		}
+		sub := &StreamCfg{MaxRecords: 2, MaxDepth: c.MaxDepth, Unknown: c.Unknown, Canonical: c.Canonical, Avoid: c.Avoid, Excluded: c.Excluded, Labels: c.Labels}
+		body := sub.GenStream(t, fd.Message(), depth+1)
+		b = c.tag(t, b, num, protowire.BytesType)
+		return c.lenPrefixed(t, b, body)
+	case fd.Kind() == protoreflect.StringKind || fd.Kind() == protoreflect.BytesKind:
+		b = c.tag(t, b, num, protowire.BytesType)
+		return c.scalarPayload(t, b, fd)
+	case rapid.Bool().Draw(t, "packed"):
+		var body []byte
+		for j, n := 0, rapid.IntRange(0, 3).Draw(t, "runlen"); j < n; j++ {
+			body = c.scalarPayload(t, body, fd)
+		}
+		b = c.tag(t, b, num, protowire.BytesType)
+		return c.lenPrefixed(t, b, body)
+	default:
+		b = c.tag(t, b, num, wireTypeOf(fd.Kind()))
+		return c.scalarPayload(t, b, fd)
+	}
 }
